@@ -136,6 +136,17 @@ def check_case(spec: dict) -> dict:
         rel_part = scan_outcome(pr4.path(), pr4.path(sub_rel)) if sub_rel else rel_full
     with Project(root, files, spec["dirs"]) as pr5:
         again = scan_outcome(pr5.path())
+        # the same directories spelt relative to the working directory: '.', './sub', and a relative root with an absolute
+        # module_path - the root's name comes from the directory, not from the spelling
+        import os
+        cwd = os.getcwd()
+        try:
+            os.chdir(pr5.path())
+            dot_full = scan_outcome(".", ".")
+            dot_part = scan_outcome(".", "./" + sub_rel) if sub_rel else dot_full
+            mixed = scan_outcome(".", pr5.path(sub_rel) if sub_rel else pr5.path())
+        finally:
+            os.chdir(cwd)
 
     def same(a, b):
         return a[0] == b[0] == "ok" and (set(a[1][0]), PS.drop_ancestor_imports(a[1][1]), set(a[1][2])) == (set(b[1][0]), PS.drop_ancestor_imports(b[1][1]), set(b[1][2]))
@@ -144,6 +155,11 @@ def check_case(spec: dict) -> dict:
         if not same(rel_full, full):
             v("relative-from-imports-differ", f"relative from-imports give {rel_full[1] if rel_full[0] != 'ok' else sorted(PS.drop_ancestor_imports(rel_full[1][1]))}, "
               f"'import <full name>' gives {sorted(PS.drop_ancestor_imports(full[1][1]))}")
+        for name, got, want in (("root_path='.'", dot_full, full), ("root_path='.' with module_path './<sub>'", dot_part, part),
+                                ("relative root_path with absolute module_path", mixed, part)):
+            if want[0] == "ok" and not same(got, want):
+                v("relative-spelling-differs", f"{name}: {got[1] if got[0] != 'ok' else sorted(got[1][0])[:6]} instead of the architecture "
+                  f"of the absolute paths {sorted(want[1][0])[:6]}")
         if not same(again, full):
             v("second-scan-differs", f"second scan of the same tree: {again[1] if again[0] != 'ok' else sorted(again[1][1])} vs first {sorted(full[1][1])}")
         if sub_rel and part[0] == "ok" and not (rel_part[0] == "ok" and (set(rel_part[1][0]), clean(rel_part[1][1]), set(rel_part[1][2])) == (set(part[1][0]), clean(part[1][1]), set(part[1][2]))):
